@@ -28,6 +28,7 @@ class UnusedTranslator:
         self.output_predicates = output_predicates
         self.used_positions: dict[Predicate, set[int]] = defaultdict(set)
         self.used: set[Predicate] = set()
+        self.signature_predicates: set[Predicate] = set()  # named in #show p/n. or #project p/n.
         self._anon = Variable(LOC, "_")
         self.new_names: dict[tuple[Predicate, Predicate], str] = {}
 
@@ -73,6 +74,7 @@ class UnusedTranslator:
         """analyze program which predicates positions are used"""
         self.used = set()
         self.used_positions = defaultdict(set)
+        self.signature_predicates = set()
         for stm in prg:
             if stm.ast_type in (
                 ASTType.Rule,
@@ -107,6 +109,7 @@ class UnusedTranslator:
             if stm.ast_type in (ASTType.ShowSignature, ASTType.ProjectSignature):
                 pred = Predicate(stm.name, stm.arity)
                 self.used.add(pred)
+                self.signature_predicates.add(pred)
                 self.used_positions[pred].update(range(0, stm.arity))
 
         for pred in chain(self.input_predicates, self.output_predicates):
@@ -228,7 +231,7 @@ class UnusedTranslator:
         rd = RuleDependency(prg)
 
         for head in rd.get_headderivable_predicates():
-            if head in self.input_predicates or head in self.output_predicates:
+            if head in self.input_predicates or head in self.output_predicates or head in self.signature_predicates:
                 continue
 
             rules = rd.get_rules_that_derive(head)
